@@ -3,6 +3,7 @@ import gen_bank as G
 import gen_hops as H
 import hops_oracles as O
 from props import c08 as C08
+from props import authlib as A
 ID = "C19"
 MANIFEST = {
     "text": ("Kernel-checked theorems over the handler/wrapper model: collect_bank_fees moves exactly the whole-token part of each "
@@ -22,7 +23,7 @@ RULE = ("level C: handler sequences with fee buckets that are fractional, zero, 
         "or a claim that credited emissions; distinct = different case line")
 ASSUMPTIONS = [
     "destination accounts of collect_bank_fees (insurance/fee vault PDAs, canonical ATA of the global fee wallet) are enforced by account constraints and the in-handler ATA check: covered by C08's table and by the level-C run (a wrong ATA is rejected with InvalidFeeAta)",
-    "emission token transfers (withdraw_emissions) are not executed at level C; the accounting (claim/settle) is",
+    "the emission token transfers of withdraw_emissions(_permissionless) are executed through the real entry point by the implementation-only suite emissions-payout (conservation oracle); the claim / settle accounting is modelled and corresponded at level B",
 ]
 OBSERVATIONS = []
 ONE = G.ONE
@@ -73,7 +74,40 @@ def suites(rng, tier):
     b = [G.gen_case(rng, max_ops=24, limits="none", emissions=True) for _ in range(m)]
     return [{"suite": "hops", "name": "hops-fees", "lines": a, "distribution": {"cases": n}},
             {"suite": "bankops", "name": "bankops-emissions", "lines": b, "distribution": {"cases": m}},
-            destinations_suite()]
+            destinations_suite(), payout_suite(rng, {"quick": 40, "thorough": 1500, "search": 300}[tier])]
+
+
+def payout_suite(rng, n):
+    """the two instructions that PAY emissions out, through the real entry point on the fixture's funded emissions bank, at
+    different times after the last claim (implementation only; the claim / settle arithmetic itself is modelled at level B).
+    The harness reports the position's outstanding emissions before / after, and the changes of the emissions vault, of the
+    destination token account and of the bank's funded remaining amount"""
+    lines = []
+    times = [0, 1, 60, 3600, 86400, 86400 * 30] + [rng.randrange(0, 10 ** 7) for _ in range(n)]
+    for ix in ("lending_account_withdraw_emissions", "lending_account_withdraw_emissions_permissionless"):
+        for t in times:
+            c = A.base(ix)
+            c["mode"] = "emis"
+            lines.append(A.line(c, t=t) + f" k=emis T={t}")
+    return {"suite": "auth", "name": "emissions-payout", "lines": lines, "impl_only": True,
+            "distribution": {"cells": len(lines), "note": "implementation only: handler glue around settle_emissions (token transfer amount, vault, destination)"}}
+
+
+def oracle_payout(case, impl):
+    if " E " not in impl:
+        return None
+    pre_out, post_out, dvault, ddest, drem = map(int, impl.split(" E ")[1].split()[:5])
+    ix = C08.kvs(case)["ix"]
+    if ddest != -dvault:
+        return {"key": "emissions-vault-destination-mismatch", "what": f"{ix}: emissions vault changed by {dvault}, destination by {ddest}"}
+    if ddest < 0 or drem > 0:
+        return {"key": "emissions-flow-reversed", "what": f"{ix}: destination {ddest}, remaining {drem}"}
+    if not (0 <= post_out < G.ONE):
+        return {"key": "emissions-outstanding-not-settled", "what": f"{ix}: {post_out / G.ONE} tokens of emissions still outstanding after the payout"}
+    if ddest * G.ONE + post_out != pre_out - drem:
+        return {"key": "emissions-payout-not-accrued-amount",
+                "what": f"{ix}: paid {ddest} tokens + {post_out} outstanding != {pre_out} outstanding before + {-drem} newly accrued"}
+    return None
 
 
 FEE_EMISSION_IXS = ("lending_pool_setup_emissions", "lending_pool_update_emissions_parameters", "lending_account_withdraw_emissions",
@@ -93,6 +127,8 @@ def destinations_suite():
 
 
 def nontrivial(suite, case, impl):
+    if suite == "auth" and " k=emis " in case:
+        return " E " in impl
     if suite == "auth":
         return C08.nontrivial(suite, case, impl)
     if suite == "hops":
@@ -116,6 +152,8 @@ def nontrivial(suite, case, impl):
 
 
 def oracle(suite, case, impl):
+    if suite == "auth" and " k=emis " in case:
+        return oracle_payout(case, impl)
     if suite == "auth":
         return C08.oracle(suite, case, impl)
     if suite == "hops":
